@@ -465,6 +465,21 @@ class NFJC(Sub):
                 i = int(np.argmax(dev - lim))
                 out.fail(sig + 'pair-sum', 'NFJC(N=%d,l=%r): omega(k=%r) = %r, own pair sum over separations with finer quadrature = %r' % (
                     N, l, float(k[mid][i]), float(om[mid][i]), float(ref[i])))
+        # a second object with another bond length evaluated on the very same k array (two chain species of one System share
+        # domain.k): its values must not depend on the first object having been evaluated before
+        l2 = 1.6 * l if l <= 1.0 else 0.5 * l
+        mid2 = (k * l2 <= 5.0) & (k * l2 >= 0.05)
+        if N >= 3 and np.any(mid2):
+            with warnings.catch_warnings():
+                warnings.simplefilter('ignore')
+                with np.errstate(all='ignore'):
+                    om2 = np.asarray(cls(length=N, l=l2).calculate(k), dtype=float)
+            ref2 = nfjc_reference(N, k[mid2] * l2)
+            E2 = np.sinc(k[mid2] * l2 / math.pi)
+            lim2 = 2e-3 * N + closed_form_tol(N, E2, np.full(int(np.count_nonzero(mid2)), float(N)))
+            if om2.shape != k.shape or np.any(np.abs(om2[mid2] - ref2) > lim2):
+                out.fail(sig + 'depends-on-other-instances', 'NFJC(N=%d,l=%r) evaluated on the same k array after NFJC(l=%r) differs from its own pair sum by %.3g' % (
+                    N, l2, l, float(np.max(np.abs(om2[mid2] - ref2))) if om2.shape == k.shape else float('nan')))
         with warnings.catch_warnings():
             warnings.simplefilter('ignore')
             g = np.random.Generator(np.random.PCG64(spec['sub_seed']))
